@@ -6,6 +6,6 @@ CONTRACTS = list(_R) + [SweepDeadEntries, ApiHistories, KfRemoveThroughParent, C
 
 MANIFEST = {
     "category": "proof",
-    "text": "Workspace.remove_entity is verified for every kind of entity (plain, concatenated, property groups): a request on an entity whose delete permission is off raises before anything else happens, any other request acts on the entity. Workspace.remove_children unlinks each child from the container of its own kind for every mix of kinds (up to 3 children). Workspace.remove_recursively and ObjectBase.remove_data_from_groups are verified with the live-list semantics of Python iteration (removing takes elements out of the list being walked) for up to 5 children / 4 property groups: every child is removed exactly once, every group is scrubbed exactly once. Whole histories (removal through the workspace, re-open, lookups, property groups, file validity) are a seeded bounded stand-in. Two open known findings (removal through the parent leaves the node in the file; removal of concatenated entities through the workspace leaves them in the parent's list). Concatenated removals are covered by ConcatRemoveChildren / ConcatRemoveHole (abstract) and by the concatenation histories (whole holes through both entry points, data through both entry points).",
+    "text": "Workspace.remove_entity is verified for every kind of entity (plain, concatenated, property groups): a request on an entity whose delete permission is off raises before anything else happens, any other request acts on the entity. Workspace.remove_children unlinks each child from the container of its own kind for every mix of kinds (up to 3 children). Workspace.remove_recursively and ObjectBase.remove_data_from_groups are verified with the live-list semantics of Python iteration (removing takes elements out of the list being walked) for up to 5 children / 4 property groups: every child is removed exactly once, every group is scrubbed exactly once. Whole histories (removal through the workspace, re-open, lookups, property groups, file validity) are a seeded bounded stand-in. Two open known findings (removal through the parent leaves the node in the file; removal of concatenated entities through the workspace leaves them in the parent's list). Concatenated removals are covered by ConcatRemoveChildren / ConcatRemoveHole (abstract) and by the concatenation histories (whole holes through both entry points, data through both entry points). Round-6 additions: Workspace.remove_none_referents under contract for every kind (property groups have no container to clear; a type still named by stored drillhole records stays in the file), Workspace.remove_children ignores property groups of other objects, registry listings and property-group drops in the histories.",
     "note": "lists are concrete up to the stated sizes (exhaustive within the bound), elements abstract; garbage collection of dropped references is a premise; concatenated removal paths (Concatenator.remove_entity) are covered by C04's histories.",
 }
